@@ -80,10 +80,39 @@ def sign_pairs(x):
         if m: out.append(('a', 'att-signpair-%d' % w, x['att'][:m.start()] + '$%d' % sv + x['att'][m.end():], x['att'][:m.start()] + '$0x%x' % uv + x['att'][m.end():]))
     return out
 
+def operand_tie(chk):
+    """Operand.v (norm32, dict_add, dict_sub, dict_scale) vs parse_ad.py, exact output"""
+    try: build_model()
+    except BuildBroken as e:
+        chk.violation('extracted model does not build: ' + e.what, dict(log_tail=e.log[-3000:]), found_input=False); return 0
+    rng = chk.rng
+    lines = []
+    nums = set(asmcheck.BOUNDARY) | {0, 1, 16, 255, 256, 4096, 65535, 65536, 2**31 - 1, 2**31, 2**31 + 1, 2**32 - 2, 2**32 - 1, 2**32, 2**32 + 1, 2**33 + 5, 2**40 - 1} | {rng.randrange(0, 1 << 34) for _ in range(300)}
+    for n in sorted(nums):
+        if n >= 0:
+            lines.append('num %d' % n); lines.append('num 0x%x' % n); lines.append('num 0X%X' % n)
+    def rdict():
+        keys = rng.sample([0, 1, 2, 3, 4, 5, 6, 7, 1000], rng.randrange(0, 4))
+        return ','.join('%d:%d' % (k, rng.choice([1, 1, 2, 4, 8, -1, 3, 0x10, 0x7fffffff, -4])) for k in keys) or '-'
+    for _ in range(1500):
+        a, b = rdict(), rdict()
+        lines.append('add %s %s' % (a, b)); lines.append('sub %s %s' % (a, b)); lines.append('add %s %s' % (b, a))
+        lines.append('mul %d %s' % (rng.choice([1, 2, 4, 8, 3, -1, 0]), b))
+    impl = run_impl('impl_operand.py', lines, shards=4)
+    model_lines = [('num %d' % int(l.split()[1], 0)) if l.startswith('num') else l for l in lines]
+    model = run_model('operand', model_lines)
+    bad = [(l, m, i) for l, m, i in zip(lines, model, impl) if m != i]
+    if bad:
+        l, m, i = bad[0]
+        chk.violation('correspondence Operand.v vs parse_ad.py broken on %d inputs, e.g. %r: model %s, implementation %s' % (len(bad), l, m, i),
+                      dict(correspondence='Operand.v norm32/dict_add/dict_sub/dict_scale vs miasmx/core/parse_ad.py', case=l, model=m, impl=i, count=len(bad)), found_input=False)
+    return len(lines)
+
 def run(tier):
     chk = Check('C19', tier)
     if not chk.prove():
         chk.violation('proof obligations of props/C19.v no longer check', chk.broken_summary(), found_input=False)
+    ntie = operand_tie(chk)
     ctx = asmcheck.Ctx(chk, tier)
     bad = {}
     def note(key, case, detail): bad.setdefault(key, []).append((case, detail))
@@ -128,7 +157,8 @@ def run(tier):
         ncmp += 1
         if cs != o:
             note(asmcheck.klass('spell:%s' % kind, x), t, '%r assembles to %s but its %s respelling %r to %s' % (x['intel'], list(o)[:4], kind, t, ('an exception' if cs == ('E',) else list(cs)[:4])))
-    chk.cov['evaluations'] = len(lines); chk.cov['spelling_pairs_compared'] = ncmp; chk.cov['base_lines'] = len(sel)
+    chk.cov['operand_algebra_correspondence_cases'] = ntie
+    chk.cov['evaluations'] = len(lines) + ntie; chk.cov['spelling_pairs_compared'] = ncmp; chk.cov['base_lines'] = len(sel)
     chk.cov['distinct_nontrivial'] = ncmp; chk.cov['traces_validated_against_impl'] = len(lines)
     asmcheck.report(chk, bad)
     chk.cov['rule'] = ('%d base string(s) per (mnemonic, feature) class; Intel rendering vs its respellings: register case, keyword case, spacing, hex / HEX / decimal numbers, -1 vs 0xFFFFFFFF at 32 bits, '
